@@ -311,16 +311,54 @@ func runEncode(specs []PSpec, w *worker) (EncObs, string, string) {
 		o.marshal = r
 		return o, "new-panic", "Default.New panicked: " + r.msg
 	}
-	// the protocol encodings, taken one by one (property text: "the concatenation of
-	// the protocol encodings in ascending protocol-ID order")
-	var want []byte
-	sorted := stableSorted(specs)
-	for _, s := range sorted {
-		e, err := s.build().MarshalBinary()
-		if err != nil {
-			return o, "marshal-err", "protocol does not marshal: " + err.Error()
+	// The arrangement New produced: must be the given protocols, each once, in ascending ID
+	// order (the property leaves the order among equal IDs open; the Coq model fixes it
+	// to construction order, which is what an insertion sort gives).
+	var fail, desc string
+	setFail := func(f, d string) {
+		if fail == "" {
+			fail, desc = f, d
 		}
-		want = append(want, e...)
+	}
+	var arranged []OProto
+	var want []byte
+	ra := guarded(func() error {
+		arr := protocolsOf(&m)
+		usedIdx := make([]bool, len(built))
+		for i, p := range arr {
+			op := observe(p)
+			arranged = append(arranged, op)
+			if i > 0 && idOf(arranged[i-1]) > idOf(op) {
+				setFail("concat", fmt.Sprintf("New did not arrange the protocols in ascending ID order: %#x before %#x", idOf(arranged[i-1]), idOf(op)))
+			}
+			found := false
+			for j := range specs {
+				if !usedIdx[j] && specs[j].oproto().equal(op) {
+					usedIdx[j], found = true, true
+					break
+				}
+			}
+			if !found {
+				setFail("concat", fmt.Sprintf("New holds a protocol that was not given (or twice): %v", op.K))
+			}
+			// the protocol encodings, taken one by one (property text: "the concatenation
+			// of the protocol encodings in ascending protocol-ID order")
+			e, err := p.MarshalBinary()
+			if err != nil {
+				return err
+			}
+			want = append(want, e...)
+		}
+		if len(arr) != len(specs) {
+			setFail("concat", fmt.Sprintf("New holds %d protocols, %d were given", len(arr), len(specs)))
+		}
+		return nil
+	})
+	if ra.out == "panic" {
+		return o, "marshal-panic", "a protocol's MarshalBinary panicked: " + ra.msg
+	}
+	if ra.out == "err" {
+		return o, "marshal-err", "a protocol does not marshal: " + ra.msg
 	}
 	// Get / Protocols / Validate on the constructed value
 	ids := map[uint64]bool{}
@@ -332,12 +370,6 @@ func runEncode(specs []PSpec, w *worker) (EncObs, string, string) {
 		probe = append(probe, id)
 	}
 	sort.Slice(probe, func(i, j int) bool { return probe[i] < probe[j] })
-	var fail, desc string
-	setFail := func(f, d string) {
-		if fail == "" {
-			fail, desc = f, d
-		}
-	}
 	rg := guarded(func() error {
 		var last uint64 = 1<<64 - 1
 		for _, id := range probe {
@@ -365,14 +397,15 @@ func runEncode(specs []PSpec, w *worker) (EncObs, string, string) {
 				} else if uint64(p.ID()) != id {
 					setFail("get", fmt.Sprintf("Get(%#x) returned a protocol with ID %#x", id, uint64(p.ID())))
 				} else {
-					// the first protocol given with that ID (stable order)
+					// a protocol that was constructed with that ID
+					ok := false
 					for _, s := range specs {
-						if s.id() == id {
-							if !observe(p).equal(s.oproto()) {
-								setFail("get-shadow", fmt.Sprintf("Get(%#x) returned %v, not the first protocol constructed with that ID", id, observe(p)))
-							}
-							break
+						if s.id() == id && observe(p).equal(s.oproto()) {
+							ok = true
 						}
+					}
+					if !ok {
+						setFail("get", fmt.Sprintf("Get(%#x) returned a protocol that was not given", id))
 					}
 				}
 			} else if p != nil {
@@ -388,9 +421,9 @@ func runEncode(specs []PSpec, w *worker) (EncObs, string, string) {
 	if rg.out != "ok" {
 		return o, "get-panic", "Get/Protocols/Validate panicked: " + rg.msg
 	}
-	wantIDs := make([]uint64, len(sorted))
-	for i, s := range sorted {
-		wantIDs[i] = s.id()
+	wantIDs := make([]uint64, len(arranged))
+	for i, p := range arranged {
+		wantIDs[i] = idOf(p)
 	}
 	if fmt.Sprint(wantIDs) != fmt.Sprint(o.ids) {
 		setFail("protocols", fmt.Sprintf("Protocols() = %v, want ascending IDs %v", o.ids, wantIDs))
@@ -416,10 +449,7 @@ func runEncode(specs []PSpec, w *worker) (EncObs, string, string) {
 	case "err":
 		setFail("roundtrip-err-"+slug(o.dec.msg), "UnmarshalBinary(MarshalBinary(m)) failed: "+o.dec.msg)
 	default:
-		wantP := make([]OProto, len(sorted))
-		for i, s := range sorted {
-			wantP[i] = s.oproto()
-		}
+		wantP := arranged
 		if !oprotosEqual(wantP, o.dec.protos) {
 			cl := "roundtrip-differs"
 			if len(wantP) != len(o.dec.protos) {
@@ -486,7 +516,6 @@ func (o EncObs) coq(specs []PSpec) string {
 		coqObs(o.dec.out, coqProtos(o.dec.protos)),
 		vlib.CoqList(ids), vlib.CoqList(gets), vlib.CoqBool(o.validateOK))
 }
-
 
 // limits ties two constants of the model to the implementation without writing
 // megabyte literals: the largest link (multibase byte + CID) the DAG-CBOR decoder's
